@@ -115,7 +115,9 @@ class SimThreading:
         self.sim = sim
 
     def Thread(self, target=None, args=(), **kw):
-        return SimThread(self.sim, "kbd", target, args)
+        t = SimThread(self.sim, "kbd", target, args)
+        t.priority = self.sim.kbd_priority
+        return t
 
     def main_thread(self):
         sim = self.sim
@@ -172,6 +174,10 @@ class Sim:
         self.time = SimTime(self)
         self._orig_thread_ctor = None
         self.deadlock = False
+        # directed interleaving: park the keyboard thread right before it sets should_exit and release it
+        # exactly when main reaches a labelled program point for the n-th time
+        self.sync = schedule.get("sync")
+        self.sync_state = "idle"
 
     # -- tracing -----------------------------------------------------------
     def tracer(self, frame, event, arg):
@@ -206,6 +212,8 @@ class Sim:
             return self.keyboard.head_ready(self.ctx.nlines) or self.killing
         if t.blocked == "sleep":
             return self.ctx.clock.now >= t.deadline or self.killing
+        if t.blocked == "sync":
+            return self.sync_state == "released" or self.killing
         return True
 
     def pick(self):
@@ -248,6 +256,30 @@ class Sim:
                 # the line `pcfg.should_exit = True` is about to execute
                 self.should_exit_step = self.step
                 self.should_exit_lines = self.ctx.nlines
+        if self.sync is not None and label is not None:
+            if me is not self.main and label == "should_exit_set" and self.sync_state == "idle":
+                self.sync_state = "waiting"
+                me.blocked = "sync"
+                try:
+                    while self.sync_state != "released":
+                        if self.killing:
+                            raise SimKilled()
+                        nxt = self.pick()
+                        if nxt is None or nxt is me:
+                            break
+                        self.switch(me, nxt, "sync_wait")
+                finally:
+                    me.blocked = None
+                self.sync_state = "done"
+                self.log.append((self.step, "sync_release", self.sync[0], self.label_seen.get(self.sync[0], 0), self.ctx.nlines))
+                return
+            if me is self.main and self.sync_state == "waiting" and label == self.sync[0] \
+                    and self.label_seen.get(label, 0) >= self.sync[1]:
+                self.sync_state = "released"
+                change = True
+            elif me is not self.main and self.sync_state == "done" and label == "after_should_exit":
+                self.sync_state = "finished"
+                change = True            # hand control straight back: the flag was set at exactly that point of main
         if change:
             self.low -= 1
             me.priority = self.low
